@@ -96,6 +96,15 @@ def cases(ctx):
                     if st == 1:
                         yield dict(op="emergency_state " + m, real=(A + "emergency_state", [m]), expect=str(es), tag="tc28-state-squawk",
                                    info=dict(st=st, es=es))
+    # TC 28: the Mode A code itself, every 12-bit code with either X bit ("emergency state and squawk ... equal the
+    # values encoded"; C08 pins the same decoder from the identity-code side)
+    for n in range(4096):
+        qa, qb, qc, qd = n >> 9, (n >> 6) & 7, (n >> 3) & 7, n & 7
+        x = n & 1 if not ctx.thorough else None
+        for xx in ((0, 1) if x is None else (x,)):
+            m = hex_of(spec.adsb_frame(rng, 28, [(5, 3, 1), (8, 3, rng.randrange(8)), (11, 13, id13(qa, qb, qc, qd, xx))], df=rng.choice([17, 18])),
+                       rng.choice(["upper", "lower"]))
+            yield dict(op="emergency_squawk " + m, real=(A + "emergency_squawk", [m]), expect="%d%d%d%d" % (qa, qb, qc, qd), tag="tc28-squawk")
     # --- TC 29 subtype 1 (DO-260B)
     for alt in range(2048):
         for src in (0, 1):
